@@ -11,6 +11,7 @@ import (
 	"fmt"
 	"math/big"
 	"os"
+	"regexp"
 	"strconv"
 	"sync"
 	"time"
@@ -342,3 +343,10 @@ func Reset(path string) {
 	Failed = nil
 	os.Setenv("VERIF_CEX", path)
 }
+
+// FullMatch reports whether ALL of s is in the language of the regular expression p (reference
+// semantics, independent of how the code under test anchors its patterns).
+func FullMatch(p, s string) bool { return regexp.MustCompile(`^(?:` + p + `)$`).MatchString(s) }
+
+// Compiles reports whether p is a valid regular expression.
+func Compiles(p string) bool { _, err := regexp.Compile(p); return err == nil }
